@@ -1,7 +1,516 @@
-//! `bf.*` and `impl.bf.*` operations (stub; filled in by the owner of this family).
+//! `bf.*` operations: bounded integer types and the six headers that pack bit fields (C15).
 #![allow(unused_imports, dead_code)]
 use crate::util::*;
+use etherparse::err::{LenError, ValueTooBigError};
+use etherparse::igmp::{GroupAddress, MaxResponseCode, MembershipQueryWithSourcesHeader, Qrv};
+use etherparse::*;
 
-pub fn run(_op: &str, _a: &[&str]) -> Option<String> {
-    None
+fn too_big<T>(e: &ValueTooBigError<T>) -> String
+where
+    T: Sized + Clone + core::fmt::Display + core::fmt::Debug + Eq + PartialEq + core::hash::Hash,
+{
+    format!(
+        "err(actual={},max={},vt={:?})",
+        e.actual, e.max_allowed, e.value_type
+    )
+}
+
+fn len_err(e: &LenError) -> String {
+    format!(
+        "err(len(req={},len={},src={:?},layer={:?},off={}))",
+        e.required_len, e.len, e.len_source, e.layer, e.layer_start_offset
+    )
+}
+
+fn b01(b: bool) -> &'static str {
+    if b {
+        "1"
+    } else {
+        "0"
+    }
+}
+
+fn boolarg(s: &str) -> Option<bool> {
+    match s {
+        "0" => Some(false),
+        "1" => Some(true),
+        _ => None,
+    }
+}
+
+fn arr<const N: usize>(s: &str) -> Option<[u8; N]> {
+    hex(s)?.try_into().ok()
+}
+
+macro_rules! bounded {
+    ($r:expr) => {
+        match $r {
+            Ok(v) => format!("ok({})", v.value()),
+            Err(e) => too_big(&e),
+        }
+    };
+}
+
+fn ecn_res(r: Result<IpEcn, ValueTooBigError<u8>>) -> String {
+    match r {
+        Ok(v) => format!("ok({},{:?})", v.value(), v),
+        Err(e) => too_big(&e),
+    }
+}
+
+fn try_new(t: &str, v: &str) -> Option<String> {
+    Some(match t {
+        "vlan_id" => bounded!(VlanId::try_new(num(v)?)),
+        "vlan_pcp" => bounded!(VlanPcp::try_new(num(v)?)),
+        "dscp" => bounded!(IpDscp::try_new(num(v)?)),
+        "ecn" => ecn_res(IpEcn::try_new(num(v)?)),
+        "frag_off" => bounded!(IpFragOffset::try_new(num(v)?)),
+        "flow_label" => bounded!(Ipv6FlowLabel::try_new(num(v)?)),
+        "macsec_an" => bounded!(MacsecAn::try_new(num(v)?)),
+        "macsec_sl" => bounded!(MacsecShortLen::try_from_u8(num(v)?)),
+        "qrv" => bounded!(Qrv::try_new(num(v)?)),
+        _ => return None,
+    })
+}
+
+fn try_from(t: &str, v: &str) -> Option<String> {
+    Some(match t {
+        "vlan_id" => bounded!(VlanId::try_from(num::<u16>(v)?)),
+        "vlan_pcp" => bounded!(VlanPcp::try_from(num::<u8>(v)?)),
+        "dscp" => bounded!(IpDscp::try_from(num::<u8>(v)?)),
+        "ecn" => ecn_res(IpEcn::try_from(num::<u8>(v)?)),
+        "frag_off" => bounded!(IpFragOffset::try_from(num::<u16>(v)?)),
+        "flow_label" => bounded!(Ipv6FlowLabel::try_from(num::<u32>(v)?)),
+        "macsec_an" => bounded!(MacsecAn::try_from(num::<u8>(v)?)),
+        "macsec_sl" => bounded!(MacsecShortLen::try_from(num::<u8>(v)?)),
+        "qrv" => bounded!(Qrv::try_from(num::<u8>(v)?)),
+        _ => return None,
+    })
+}
+
+fn show_vlan(h: &SingleVlanHeader) -> String {
+    format!(
+        "pcp={},dei={},vid={},et={}",
+        h.pcp.value(),
+        b01(h.drop_eligible_indicator),
+        h.vlan_id.value(),
+        h.ether_type.0
+    )
+}
+
+fn show_ip4(h: &Ipv4Header) -> String {
+    format!(
+        "dscp={},ecn={},total_len={},id={},df={},mf={},fo={},ttl={},proto={},cks={},src={},dst={},opts={},ihl={}",
+        h.dscp.value(),
+        h.ecn.value(),
+        h.total_len,
+        h.identification,
+        b01(h.dont_fragment),
+        b01(h.more_fragments),
+        h.fragment_offset.value(),
+        h.time_to_live,
+        h.protocol.0,
+        h.header_checksum,
+        to_hex(&h.source),
+        to_hex(&h.destination),
+        to_hex(h.options.as_slice()),
+        h.ihl()
+    )
+}
+
+fn show_ip6(h: &Ipv6Header) -> String {
+    format!(
+        "tc={},dscp={},ecn={},fl={},plen={},nh={},hop={},src={},dst={}",
+        h.traffic_class,
+        h.dscp().value(),
+        h.ecn().value(),
+        h.flow_label.value(),
+        h.payload_length,
+        h.next_header.0,
+        h.hop_limit,
+        to_hex(&h.source),
+        to_hex(&h.destination)
+    )
+}
+
+fn show_raw8(h: &MembershipQueryWithSourcesHeader) -> String {
+    format!(
+        "raw={},flags={},s={},qrv={}",
+        h.raw_byte_8,
+        h.flags(),
+        b01(h.s_flag()),
+        h.qrv().value()
+    )
+}
+
+fn query(raw: u8) -> MembershipQueryWithSourcesHeader {
+    MembershipQueryWithSourcesHeader {
+        max_response_code: MaxResponseCode(0),
+        group_address: GroupAddress::from([0u8; 4]),
+        raw_byte_8: raw,
+        qqic: 0,
+        num_of_sources: 0,
+    }
+}
+
+pub fn run(op: &str, a: &[&str]) -> Option<String> {
+    Some(match (op, a) {
+        ("bf.try_new", [t, v]) => try_new(t, v)?,
+        ("bf.try_from", [t, v]) => try_from(t, v)?,
+        ("bf.sl_from_len", [n]) => MacsecShortLen::from_len(num::<usize>(n)?)
+            .value()
+            .to_string(),
+        ("bf.fo_byte_offset", [v]) => match IpFragOffset::try_new(num(v)?) {
+            Ok(x) => x.byte_offset().to_string(),
+            Err(e) => too_big(&e),
+        },
+        // SingleVlanHeader
+        ("bf.vlan_enc", [pcp, dei, vid, et]) => {
+            let pcp: u8 = num(pcp)?;
+            let dei = boolarg(dei)?;
+            let vid: u16 = num(vid)?;
+            let et: u16 = num(et)?;
+            let pcp = match VlanPcp::try_new(pcp) {
+                Ok(v) => v,
+                Err(e) => return Some(too_big(&e)),
+            };
+            let vid = match VlanId::try_new(vid) {
+                Ok(v) => v,
+                Err(e) => return Some(too_big(&e)),
+            };
+            let h = SingleVlanHeader {
+                pcp,
+                drop_eligible_indicator: dei,
+                vlan_id: vid,
+                ether_type: EtherType(et),
+            };
+            format!("ok({})", to_hex(&h.to_bytes()))
+        }
+        ("bf.vlan_dec", [h]) => {
+            let b = hex(h)?;
+            match SingleVlanHeader::from_slice(&b) {
+                Ok((h, rest)) => format!("ok({},rest={})", show_vlan(&h), win(&b, rest)),
+                Err(e) => len_err(&e),
+            }
+        }
+        ("bf.vlan_from_bytes", [h]) => show_vlan(&SingleVlanHeader::from_bytes(arr::<4>(h)?)),
+        // Ipv4Header
+        ("bf.ip4_enc", [dscp, ecn, tl, id, df, mf, fo, ttl, proto, cks, src, dst, opts]) => {
+            let dscp: u8 = num(dscp)?;
+            let ecn: u8 = num(ecn)?;
+            let total_len: u16 = num(tl)?;
+            let identification: u16 = num(id)?;
+            let df = boolarg(df)?;
+            let mf = boolarg(mf)?;
+            let fo: u16 = num(fo)?;
+            let ttl: u8 = num(ttl)?;
+            let proto: u8 = num(proto)?;
+            let cks: u16 = num(cks)?;
+            let source = arr::<4>(src)?;
+            let destination = arr::<4>(dst)?;
+            let opts = hex(opts)?;
+            let options = Ipv4Options::try_from(&opts[..]).ok()?;
+            let dscp = match IpDscp::try_new(dscp) {
+                Ok(v) => v,
+                Err(e) => return Some(too_big(&e)),
+            };
+            let ecn = match IpEcn::try_new(ecn) {
+                Ok(v) => v,
+                Err(e) => return Some(too_big(&e)),
+            };
+            let fo = match IpFragOffset::try_new(fo) {
+                Ok(v) => v,
+                Err(e) => return Some(too_big(&e)),
+            };
+            let h = Ipv4Header {
+                dscp,
+                ecn,
+                total_len,
+                identification,
+                dont_fragment: df,
+                more_fragments: mf,
+                fragment_offset: fo,
+                time_to_live: ttl,
+                protocol: IpNumber(proto),
+                header_checksum: cks,
+                source,
+                destination,
+                options,
+            };
+            let bytes = h.to_bytes();
+            let mut raw = Vec::new();
+            h.write_raw(&mut raw).ok()?;
+            format!(
+                "ok(bytes={},raw={},ihl={},len={})",
+                to_hex(&bytes),
+                to_hex(&raw),
+                h.ihl(),
+                h.header_len()
+            )
+        }
+        ("bf.ip4_dec", [h]) => {
+            let b = hex(h)?;
+            match Ipv4Header::from_slice(&b) {
+                Ok((h, rest)) => format!("ok({},rest={})", show_ip4(&h), win(&b, rest)),
+                Err(err::ipv4::HeaderSliceError::Len(e)) => len_err(&e),
+                Err(err::ipv4::HeaderSliceError::Content(e)) => match e {
+                    err::ipv4::HeaderError::UnexpectedVersion { version_number } => {
+                        format!("err(ip4.UnexpectedVersion({}))", version_number)
+                    }
+                    err::ipv4::HeaderError::HeaderLengthSmallerThanHeader { ihl } => {
+                        format!("err(ip4.HeaderLengthSmallerThanHeader({}))", ihl)
+                    }
+                },
+            }
+        }
+        ("bf.ip4_read", [h]) => {
+            let b = hex(h)?;
+            let mut c = std::io::Cursor::new(&b[..]);
+            match Ipv4Header::read(&mut c) {
+                Ok(h) => format!("ok({})", show_ip4(&h)),
+                Err(err::ipv4::HeaderReadError::Io(_)) => "err(io)".to_string(),
+                Err(err::ipv4::HeaderReadError::Content(e)) => match e {
+                    err::ipv4::HeaderError::UnexpectedVersion { version_number } => {
+                        format!("err(ip4.UnexpectedVersion({}))", version_number)
+                    }
+                    err::ipv4::HeaderError::HeaderLengthSmallerThanHeader { ihl } => {
+                        format!("err(ip4.HeaderLengthSmallerThanHeader({}))", ihl)
+                    }
+                },
+            }
+        }
+        // Ipv6Header
+        ("bf.ip6_enc", [tc, fl, plen, nh, hop, src, dst]) => {
+            let traffic_class: u8 = num(tc)?;
+            let fl: u32 = num(fl)?;
+            let payload_length: u16 = num(plen)?;
+            let nh: u8 = num(nh)?;
+            let hop_limit: u8 = num(hop)?;
+            let source = arr::<16>(src)?;
+            let destination = arr::<16>(dst)?;
+            let flow_label = match Ipv6FlowLabel::try_new(fl) {
+                Ok(v) => v,
+                Err(e) => return Some(too_big(&e)),
+            };
+            let h = Ipv6Header {
+                traffic_class,
+                flow_label,
+                payload_length,
+                next_header: IpNumber(nh),
+                hop_limit,
+                source,
+                destination,
+            };
+            format!("ok({})", to_hex(&h.to_bytes()))
+        }
+        ("bf.ip6_dec", [h]) => {
+            let b = hex(h)?;
+            match Ipv6Header::from_slice(&b) {
+                Ok((h, rest)) => {
+                    // the slice type has its own dscp()/ecn()/flow_label()/traffic_class() accessors
+                    let s = Ipv6HeaderSlice::from_slice(&b).ok()?;
+                    if s.dscp() != h.dscp()
+                        || s.ecn() != h.ecn()
+                        || s.traffic_class() != h.traffic_class
+                        || s.flow_label() != h.flow_label
+                    {
+                        return Some("slice-accessors-differ".to_string());
+                    }
+                    format!("ok({},rest={})", show_ip6(&h), win(&b, rest))
+                }
+                Err(err::ipv6::HeaderSliceError::Len(e)) => len_err(&e),
+                Err(err::ipv6::HeaderSliceError::Content(e)) => match e {
+                    err::ipv6::HeaderError::UnexpectedVersion { version_number } => {
+                        format!("err(ip6.UnexpectedVersion({}))", version_number)
+                    }
+                },
+            }
+        }
+        ("bf.ip6_read", [h]) => {
+            let b = hex(h)?;
+            let mut c = std::io::Cursor::new(&b[..]);
+            match Ipv6Header::read(&mut c) {
+                Ok(h) => format!("ok({})", show_ip6(&h)),
+                Err(err::ipv6::HeaderReadError::Io(_)) => "err(io)".to_string(),
+                Err(err::ipv6::HeaderReadError::Content(e)) => match e {
+                    err::ipv6::HeaderError::UnexpectedVersion { version_number } => {
+                        format!("err(ip6.UnexpectedVersion({}))", version_number)
+                    }
+                },
+            }
+        }
+        ("bf.ip6_tc", [tc, which, v]) => {
+            let mut h = Ipv6Header {
+                traffic_class: num(tc)?,
+                ..Default::default()
+            };
+            let v: u8 = num(v)?;
+            match *which {
+                "dscp" => match IpDscp::try_new(v) {
+                    Ok(d) => h.set_dscp(d),
+                    Err(e) => return Some(too_big(&e)),
+                },
+                "ecn" => match IpEcn::try_new(v) {
+                    Ok(d) => h.set_ecn(d),
+                    Err(e) => return Some(too_big(&e)),
+                },
+                _ => return None,
+            }
+            format!(
+                "ok(tc={},dscp={},ecn={})",
+                h.traffic_class,
+                h.dscp().value(),
+                h.ecn().value()
+            )
+        }
+        // Ipv6FragmentHeader
+        ("bf.frag_enc", [nh, fo, mf, id]) => {
+            let nh: u8 = num(nh)?;
+            let fo: u16 = num(fo)?;
+            let mf = boolarg(mf)?;
+            let id: u32 = num(id)?;
+            let fo = match IpFragOffset::try_new(fo) {
+                Ok(v) => v,
+                Err(e) => return Some(too_big(&e)),
+            };
+            let h = Ipv6FragmentHeader::new(IpNumber(nh), fo, mf, id);
+            format!("ok({})", to_hex(&h.to_bytes()))
+        }
+        ("bf.frag_dec", [h]) => {
+            let b = hex(h)?;
+            match Ipv6FragmentHeader::from_slice(&b) {
+                Ok((h, rest)) => format!(
+                    "ok(nh={},fo={},mf={},id={},rest={})",
+                    h.next_header.0,
+                    h.fragment_offset.value(),
+                    b01(h.more_fragments),
+                    h.identification,
+                    win(&b, rest)
+                ),
+                Err(e) => len_err(&e),
+            }
+        }
+        // MacsecHeader
+        ("bf.macsec_enc", [pt, et, es, scb, an, sl, pn, sci]) => {
+            let et: u16 = num(et)?;
+            let es = boolarg(es)?;
+            let scb = boolarg(scb)?;
+            let an: u8 = num(an)?;
+            let sl: u8 = num(sl)?;
+            let pn: u32 = num(pn)?;
+            let sci: Option<u64> = if *sci == "-" { None } else { Some(num(sci)?) };
+            let ptype = match *pt {
+                "unmod" => MacsecPType::Unmodified(EtherType(et)),
+                "mod" => MacsecPType::Modified,
+                "enc" => MacsecPType::Encrypted,
+                "encunmod" => MacsecPType::EncryptedUnmodified,
+                _ => return None,
+            };
+            let an = match MacsecAn::try_new(an) {
+                Ok(v) => v,
+                Err(e) => return Some(too_big(&e)),
+            };
+            let short_len = match MacsecShortLen::try_from_u8(sl) {
+                Ok(v) => v,
+                Err(e) => return Some(too_big(&e)),
+            };
+            let h = MacsecHeader {
+                ptype,
+                endstation_id: es,
+                scb,
+                an,
+                short_len,
+                packet_nr: pn,
+                sci,
+            };
+            format!("ok({},hlen={})", to_hex(&h.to_bytes()), h.header_len())
+        }
+        ("bf.macsec_dec", [h]) => {
+            let b = hex(h)?;
+            match MacsecHeader::from_slice(&b) {
+                Ok(h) => {
+                    let pt = match h.ptype {
+                        MacsecPType::Unmodified(e) => format!("unmod({})", e.0),
+                        MacsecPType::Modified => "mod".to_string(),
+                        MacsecPType::Encrypted => "enc".to_string(),
+                        MacsecPType::EncryptedUnmodified => "encunmod".to_string(),
+                    };
+                    let sci = match h.sci {
+                        None => "none".to_string(),
+                        Some(v) => format!("some({})", v),
+                    };
+                    let s = MacsecHeaderSlice::from_slice(&b).ok()?;
+                    format!(
+                        "ok(ptype={},es={},scb={},an={},sl={},pn={},sci={},hlen={})",
+                        pt,
+                        b01(h.endstation_id),
+                        b01(h.scb),
+                        h.an.value(),
+                        h.short_len.value(),
+                        h.packet_nr,
+                        sci,
+                        s.slice().len()
+                    )
+                }
+                Err(err::macsec::HeaderSliceError::Len(e)) => len_err(&e),
+                Err(err::macsec::HeaderSliceError::Content(e)) => match e {
+                    err::macsec::HeaderError::UnexpectedVersion => {
+                        "err(macsec.UnexpectedVersion)".to_string()
+                    }
+                    err::macsec::HeaderError::InvalidUnmodifiedShortLen => {
+                        "err(macsec.InvalidUnmodifiedShortLen)".to_string()
+                    }
+                },
+            }
+        }
+        // igmp::MembershipQueryWithSourcesHeader
+        ("bf.igmp_set", [raw, which, v]) => {
+            let mut h = query(num(raw)?);
+            let v: u8 = num(v)?;
+            match *which {
+                "flags" => h.set_flags(v),
+                "s" => h.set_s_flag(boolarg(&v.to_string())?),
+                "qrv" => match Qrv::try_new(v) {
+                    Ok(q) => h.set_qrv(q),
+                    Err(e) => return Some(too_big(&e)),
+                },
+                _ => return None,
+            }
+            format!("ok({})", show_raw8(&h))
+        }
+        ("bf.igmp_enc", [mrc, cks, group, raw, qqic, ns]) => {
+            let h = MembershipQueryWithSourcesHeader {
+                max_response_code: MaxResponseCode(num(mrc)?),
+                group_address: GroupAddress::from(arr::<4>(group)?),
+                raw_byte_8: num(raw)?,
+                qqic: num(qqic)?,
+                num_of_sources: num(ns)?,
+            };
+            let ih = IgmpHeader {
+                igmp_type: IgmpType::MembershipQueryWithSources(h),
+                checksum: num(cks)?,
+            };
+            to_hex(&ih.to_bytes())
+        }
+        ("bf.igmp_dec", [h]) => {
+            let b = hex(h)?;
+            match IgmpHeader::from_slice(&b) {
+                Ok((ih, rest)) => match &ih.igmp_type {
+                    IgmpType::MembershipQueryWithSources(h) => format!(
+                        "ok(query(mrc={},cks={},group={},{},qqic={},nsrc={},rest={}))",
+                        h.max_response_code.0,
+                        ih.checksum,
+                        to_hex(&h.group_address.octets),
+                        show_raw8(h),
+                        h.qqic,
+                        h.num_of_sources,
+                        win(&b, rest)
+                    ),
+                    _ => "ok(other)".to_string(),
+                },
+                Err(e) => len_err(&e),
+            }
+        }
+        _ => return None,
+    })
 }
